@@ -84,6 +84,8 @@ def check(rep, an, tier):
                 rep.check("R-FORWARD", f"{origin} → calculate_capture({p}=)", ok, where=ev.loc, construct=f"calculate_capture(… {p} …) in capture",
                           entry="ReceptorEstimator.capture", config=res.config,
                           msg=f"{p} is bound to {sorted(v.flat().data) if v is not None else 'nothing'}")
+        R.rule_dtype_casts(rep, res, "ReceptorEstimator.capture")
+        R.rule_effect_free(rep, res, "ReceptorEstimator.capture")
         v = res.value.flat()
         rep.check("R-SHAPE", "capture returns (signals, filters)", None if v.shape is None else v.shape == S("S", "F"), where=res.fn.loc(),
                   construct="return of capture", entry="ReceptorEstimator.capture", config=res.config, msg=f"computed {v.shape}")
